@@ -1,10 +1,12 @@
 ---------------------------- MODULE MC_Notifier ----------------------------
 (* Exhaustive configuration of Notifier.tla: three workers, ids a,b from worker 1, c from worker 2, none from 3;
-   two symbols per id; every chunking of every stream and one peer drop at any point. *)
+   two symbols per id; every chunking of every stream, one peer drop at any point and one (re)connection. *)
 EXTENDS Integers, Sequences, FiniteSets, TLC
 CONSTANT Exact
-VARIABLES todo, upnet, upbuf, dnnet, dnbuf, alive, looked
+VARIABLES todo, upnet, upbuf, dnnet, dnbuf, alive, looked, owed, joins
 IdsOfDef == (1 :> <<"a", "b">>) @@ (2 :> <<"c">>) @@ (3 :> <<>>)
 INSTANCE Notifier WITH Workers <- {1, 2, 3}, IdsOf <- IdsOfDef, K <- 2
-OneDrop == Cardinality({1, 2, 3} \ alive) <= 1
+OneDrop == Cardinality({1, 2, 3} \ alive) <= 1 /\ joins <= 1
+\* owed and joins are history variables: they do not influence behaviour
+View == <<todo, upnet, upbuf, dnnet, dnbuf, alive, looked, owed, joins>>
 =============================================================================
